@@ -274,7 +274,7 @@ def run_worker(binary, args, seed, first, stride, seconds, outdir, tag, count=No
             rc = p.wait()
             finished.set()
         if stall[0]:
-            b.crashes.append(dict(run=None, rc=3, binary=binary, args=args, seed=seed,
+            b.crashes.append(dict(run=None, rc=3, binary=binary, args=args, seed=seed, stalled_in=(int(last_start) if last_start else None),
                                   err=f"worker printed nothing for {WORKER_STALL_S}s (last run started: {last_start}) and was killed\n" + tail(errf)))
             break
         if done and rc == 0:
@@ -746,6 +746,13 @@ def run_c18(tier, seed):
         b = res[v]
         log(f"[run] c18_{v}: {len(b.runs)} runs in {b.wall:.1f}s, crashes={len(b.crashes)}")
         for c in b.crashes:
+            if c.get("run") is None:
+                if c.get("stalled_in") is not None:   # printed nothing for WORKER_STALL_S seconds inside this run
+                    diverged.append((c["stalled_in"], v, "hang"))
+                else:
+                    log(f"HARNESS-FAULT C18: worker of build {v} failed outside a run:\n{c['err'][-800:]}")
+                    rc = max(rc, 2)
+                continue
             diverged.append((c["run"], v, "crash:" + crash_sig(c["err"], c["rc"])))
         if v == "plain":
             continue
